@@ -35,7 +35,6 @@ struct K {
     keymap: Vec<(String, String)>, // (name, kid)
     toks: Vec<Tok>,
     t: u64,
-    rs256: bool,
     auto: bool,
 }
 
@@ -102,7 +101,7 @@ impl K {
             let mut wr = qb.write(t(1)).await.expect("write");
             wr.consumer_apply_refresh(ctx).and_then(|_| wr.commit()).expect("apply refresh");
         }
-        K { a: Some(w), qa: Some(qa), qb, db, keymap: Vec::new(), toks: Vec::new(), t: 1, rs256, auto }
+        K { a: Some(w), qa: Some(qa), qb, db, keymap: Vec::new(), toks: Vec::new(), t: 1, auto }
     }
 
     fn qs(&self, srv: &str) -> &QueryServer {
@@ -306,6 +305,15 @@ impl K {
                         match ctx {
                             Ok(ctx) => {
                                 use kanidmd_lib::repl::proto::{ConsumerState, ReplIncrementalContext};
+                                if std::env::var("KV_DEBUG_CID").is_ok() {
+                                    if let Ok(v) = serde_json::to_value(&ctx) {
+                                        let ko = uuid_n(50).to_string();
+                                        let ranges = v.pointer("/v1/ranges").cloned().unwrap_or(J::Null);
+                                        let ents: Vec<J> = v.pointer("/v1/entries").and_then(|e| e.as_array()).map(|a| a.iter().filter(|e| e["u"] == ko || e["uuid"] == ko).cloned().collect()).unwrap_or_default();
+                                        let brief: Vec<String> = ents.iter().map(|e| e.to_string().chars().take(400).collect()).collect();
+                                        line["dbgctx"] = json!({"ranges": ranges, "ko": brief, "state_req": format!("{:?}", ()).len()});
+                                    }
+                                }
                                 // "ok" only when the supplier actually supplied changes and the consumer applied them
                                 let kind = match &ctx {
                                     ReplIncrementalContext::V1 { .. } => "ok",
@@ -337,6 +345,18 @@ impl K {
         }
         if changes {
             line["st"] = self.st().await;
+            if std::env::var("KV_DEBUG_CID").is_ok() {
+                // development aid: change ids of the key attribute of `ko` on both servers
+                let mut d = serde_json::Map::new();
+                for s in ["A", "B"] {
+                    let mut rd = self.qs(s).read().await.expect("read");
+                    if let Ok(e) = rd.internal_search_uuid(uuid_n(50)) {
+                        let full = dump_entry(&e);
+                        d.insert(s.to_string(), json!({"key_internal_data": full["cids"]["key_internal_data"], "class": full["cids"]["class"]}));
+                    }
+                }
+                line["dbg"] = J::Object(d);
+            }
         }
         tr.emit(&line);
         if self.auto {
@@ -378,6 +398,23 @@ fn scenarios() -> Vec<Vec<J>> {
                 ]);
             }
         }
+    }
+    // concurrent revocations on both replicas, merged on A, A restarted, then supplied onward: the
+    // revocation made on A must reach B (several copies: which replica's change id wins is random)
+    for _ in 0..6 {
+        v.push(vec![
+            json!({"a":"rotate","srv":"A","obj":"ko","at":5,"t":5}),
+            json!({"a":"repl","from":"A","t":6}),
+            json!({"a":"sign","srv":"B","obj":"ko","u":"es256","t":7}),
+            json!({"a":"sign","srv":"B","obj":"ko","u":"jwe","t":7}),
+            json!({"a":"revoke","srv":"B","obj":"ko","k":"$jwe:0","t":100}),
+            json!({"a":"revoke","srv":"A","obj":"ko","k":"$es256:0","t":100}),
+            json!({"a":"repl","from":"B","t":200}),
+            json!({"a":"reload","t":300}),
+            json!({"a":"repl","from":"A","t":310}),
+            json!({"a":"repl","from":"B","t":311}),
+            json!({"a":"repl","from":"A","t":312}),
+        ]);
     }
     v
 }
